@@ -187,10 +187,10 @@ theorem C16_delete_immediate (s : State) (h : Hnd) (o : Inst) (ho : s.objs h = s
     (opDestroy s h).2 = .ok ∧ (opDestroy s h).1.db o.cls o.id = none ∧
     (opDestroy s h).1.updates = s.updates ∧ (opDestroy s h).1.log = s.log ++ [.delete o.cls o.id] ∧
     (∀ c i, ¬ (c = o.cls ∧ i = o.id) → (opDestroy s h).1.db c i = s.db c i) := by
-  refine ⟨by simp [opDestroy, ho], by simp [opDestroy, ho, setObj, logStmt, setRowDb_same],
-    by simp [opDestroy, ho, setObj, logStmt], by simp [opDestroy, ho, setObj, logStmt], ?_⟩
+  refine ⟨by simp [opDestroy, ho], by simp [opDestroy, ho, setObj, logStmt, setRowDb_same, evictOthers],
+    by simp [opDestroy, ho, setObj, logStmt, evictOthers], by simp [opDestroy, ho, setObj, logStmt, evictOthers], ?_⟩
   intro c i hne
-  simp [opDestroy, ho, setObj, logStmt, setRowDb_other _ _ _ _ _ _ hne]
+  simp [opDestroy, ho, setObj, logStmt, evictOthers, setRowDb_other _ _ _ _ _ _ hne]
 
 /-- inserts and deletes remain immediate (both halves, as one statement) -/
 theorem C16_insert_delete_immediate (cfg : Cfg) (s : State) (h : Hnd) :
